@@ -12,10 +12,14 @@
 
   Timeouts: the timer task of `_start_timeout` is not modelled; a timeout is the explicit
   `_Flush` key in the queue (that is exactly what the timer feeds).
-  Not modelled: the Readline argument (`arg`), `is_repeat`, `save_before`, macro recording, the
-  vi cursor fix-up.
+  `_call_handler` is followed including the Readline argument (`arg` is moved into the event and
+  cleared; a handler may set it again with `append_to_arg_count`), `is_repeat`
+  (`handler == self._previous_handler`, identity of `Binding` objects) and macro recording
+  (`record_in_macro()`, "recording before and after the handler").
+  Not modelled: `save_before` / undo, the vi cursor fix-up, leaving vi temporary navigation mode.
 -/
 import Ptk.Model.C04KB
+import Ptk.Model.C04Keys
 namespace Ptk.C04
 
 /-- a `KeyPress`: the `_Flush` marker object, or `KeyPress(key, data)` (`tag` stands for `data`) -/
@@ -45,15 +49,28 @@ inductive Outcome where
   | raise        -- handler raised another exception
 deriving Repr, Inhabited, DecidableEq
 
+/-- the remaining fields of the `KeyPressEvent` a handler receives -/
+structure EvX where
+  arg : Arg := none        -- `event._arg`
+  rep : Bool := false      -- `event.is_repeat`
+deriving Repr, Inhabited, DecidableEq
+
 /-- what the processor needs from the world around it -/
 structure Iface (σ : Type) where
   getFor : σ → List Key → σ × List Binding        -- self._bindings.get_bindings_for_keys(keys)
   getStart : σ → List Key → σ × List Binding      -- self._bindings.get_bindings_starting_with_keys
   evalF : σ → F → Bool                            -- f()
   /-- `handler.call(event)`: world, input queue (handlers may `feed`), binding, key_sequence,
-      previous_key_sequence ↦ world, queue, outcome -/
-  call : σ → List KP → Binding → List KP → List KP → σ × List KP × Outcome
+      previous_key_sequence, arg / is_repeat ↦ world, queue, outcome -/
+  call : σ → List KP → Binding → List KP → List KP → EvX → σ × List KP × Outcome
   done : σ → Bool                                 -- app.is_done
+  /-- the value this invocation leaves in `key_processor.arg` (`event.append_to_arg_count`);
+      `none` = the handler does not touch it -/
+  argOut : σ → Binding → List KP → EvX → Option (List Char) := fun _ _ _ _ => none
+  recE : σ → Bool := fun _ => false               -- app.emacs_state.is_recording
+  recV : σ → Bool := fun _ => false               -- bool(app.vi_state.recording_register)
+  pushE : σ → List KP → σ := fun w _ => w         -- emacs_state.current_recording.extend(key_sequence)
+  pushV : σ → List KP → σ := fun w _ => w         -- vi_state.current_recording += k.data, k in key_sequence
 
 /-- what can be observed -/
 inductive Obs where
@@ -69,6 +86,10 @@ inductive Obs where
                                                  -- directly with `[k]` (`none`: nothing bound)
   | cprRaise (hid : Nat) (k : KP) (prev : List KP)     -- … and its exception left process_keys
   | raise (hid : Nat) (seq prev : List KP)       -- handler invoked; its exception left process_keys
+  | ev (arg : Arg) (rep : Bool)                  -- `event._arg` and `event.is_repeat` of the invocation
+                                                 -- that follows in the log
+  | recE (seq : List KP)                         -- key sequence appended to the emacs macro recording
+  | recV (seq : List KP)                         -- … to the vi macro recording
 deriving Repr, Inhabited, DecidableEq
 
 structure PS (σ : Type) where
@@ -76,6 +97,8 @@ structure PS (σ : Type) where
   buffer : List KP := []     -- key_buffer
   queue : List KP := []      -- input_queue
   prev : List KP := []       -- _previous_key_sequence
+  arg : Arg := none          -- arg
+  prevH : Option Nat := none -- _previous_handler (identity of the Binding object)
 deriving Inhabited
 
 variable {σ : Type}
@@ -90,14 +113,42 @@ def isPrefixOfLonger (I : Iface σ) (w : σ) (buf : List KP) : σ × Bool :=
   let r := I.getStart w (keysOf buf)
   (r.1, r.2.any fun b => I.evalF r.1 b.filter)
 
-/-- `_call_handler` (the parts that concern dispatch) -/
+/-- the end of `_call_handler`: `if handler.record_in_macro(): …` — the key sequence is appended to
+    the emacs recording when emacs was recording before the handler and still is, and (then) to
+    the vi recording when vi was recording before and still is -/
+def recordMacro (I : Iface σ) (wasE wasV : Bool) (w : σ) (b : Binding) (seq : List KP) :
+    σ × List Obs :=
+  if I.evalF w b.rim then
+    let doE := I.recE w && wasE
+    let w1 := if doE then I.pushE w seq else w
+    let doV := I.recV w1 && wasV
+    let w2 := if doV then I.pushV w1 seq else w1
+    (w2, (if doE then [Obs.recE seq] else []) ++ (if doV then [Obs.recV seq] else []))
+  else (w, [])
+
+/-- the event built by `_call_handler`: `arg = self.arg` (which is then cleared),
+    `is_repeat = (handler == self._previous_handler)` -/
+def eventOf (ps : PS σ) (b : Binding) : EvX := { arg := ps.arg, rep := ps.prevH == some b.bid }
+
+/-- `_call_handler` (`save_before`, the vi cursor fix-up and leaving vi temporary navigation mode
+    are not modelled) -/
 def callHandler (I : Iface σ) (ps : PS σ) (b : Binding) (seq : List KP) : PS σ × List Obs × Bool :=
-  let r := I.call ps.w ps.queue b seq ps.prev
+  let wasE := I.recE ps.w
+  let wasV := I.recV ps.w
+  let x := eventOf ps b
+  let a := I.argOut ps.w b seq x
+  let r := I.call ps.w ps.queue b seq ps.prev x
   match r.2.2 with
-  | .ok => ({ ps with w := r.1, queue := r.2.1, prev := seq }, [.call b.hid seq ps.prev], false)
-  | .readonly => ({ ps with w := r.1, queue := r.2.1, prev := seq },
-                  [.call b.hid seq ps.prev, .bell], false)
-  | .raise => ({ ps with w := r.1, queue := r.2.1 }, [.raise b.hid seq ps.prev], true)
+  | .ok =>
+    let m := recordMacro I wasE wasV r.1 b seq
+    ({ ps with w := m.1, queue := r.2.1, prev := seq, arg := a, prevH := some b.bid },
+     [.ev x.arg x.rep, .call b.hid seq ps.prev] ++ m.2, false)
+  | .readonly =>
+    let m := recordMacro I wasE wasV r.1 b seq
+    ({ ps with w := m.1, queue := r.2.1, prev := seq, arg := a, prevH := some b.bid },
+     [.ev x.arg x.rep, .call b.hid seq ps.prev, .bell] ++ m.2, false)
+  | .raise => ({ ps with w := r.1, queue := r.2.1, arg := a },
+               [.ev x.arg x.rep, .raise b.hid seq ps.prev], true)
 
 /-- `for i in range(len(buffer), 0, -1): matches = self._get_matches(buffer[:i]); if matches: …` -/
 def scan (I : Iface σ) (buf : List KP) : Nat → σ → σ × Option (Nat × Binding)
@@ -206,7 +257,8 @@ def getNext (I : Iface σ) (ps : PS σ) : Option (KP × List KP) :=
     | k :: rest => some (k, rest)
     | [] => none
 
-/-- `reset()` + `empty_queue()` in the `except` clause of process_keys -/
+/-- `reset()` + `empty_queue()` in the `except` clause of process_keys (also clears `arg` and
+    `_previous_handler`) -/
 def resetPS (ps : PS σ) : PS σ := { w := ps.w, buffer := [], queue := [], prev := [] }
 
 /-- `_process_cpr_response(key_press)`: the handler of the last active exact match for the single
@@ -216,10 +268,12 @@ def cprResponse (I : Iface σ) (ps : PS σ) (kp : KP) : PS σ × List Obs × Boo
   let r := getMatches I ps.w [kp]
   match r.2.getLast? with
   | some b =>
-    let c := I.call r.1 ps.queue b [kp] ps.prev
+    -- KeyPressEvent(arg=None, …, is_repeat=False); `self.arg` is not cleared on this path
+    let a := (I.argOut r.1 b [kp] {}).orElse fun _ => ps.arg
+    let c := I.call r.1 ps.queue b [kp] ps.prev {}
     match c.2.2 with
-    | .ok => ({ ps with w := c.1, queue := c.2.1 }, [.cpr (some b.hid) kp ps.prev], false)
-    | _ => ({ ps with w := c.1, queue := c.2.1 }, [.cprRaise b.hid kp ps.prev], true)
+    | .ok => ({ ps with w := c.1, queue := c.2.1, arg := a }, [.cpr (some b.hid) kp ps.prev], false)
+    | _ => ({ ps with w := c.1, queue := c.2.1, arg := a }, [.cprRaise b.hid kp ps.prev], true)
   | none => ({ ps with w := r.1 }, [.cpr none kp ps.prev], false)
 
 /-- `if is_cpr: self._process_cpr_response(key_press) else: self._process_coroutine.send(key_press)` -/
@@ -265,14 +319,43 @@ def feedMultiple (q : List KP) (kps : List KP) (first : Bool) : List KP :=
 def emptyQueue (ps : PS σ) : PS σ × List KP :=
   ({ ps with queue := [] }, ps.queue.filter fun k => !k.isCpr)
 
+/-! ### a handler that always feeds its own key again (non-termination witness) -/
+
+/-- one binding `a` → handler 0, which does `event.key_processor.feed(KeyPress('a'))` -/
+def loopBinding : Binding :=
+  { keys := [2], hid := 0, filter := .always, eager := .never, isGlobal := .never, bid := 1 }
+
+def loopI : Iface Unit where
+  getFor := fun w ks => (w, matchFor [loopBinding] ks)
+  getStart := fun w ks => (w, matchStarting [loopBinding] ks)
+  evalF := fun _ f => f.eval fun _ => false
+  call := fun w q _ _ _ _ => (w, q ++ [.key 2 0], .ok)
+  done := fun _ => false
+
+/-- the processor after the first `a` has been handled: `a` is queued again -/
+def loopPS : PS Unit :=
+  { w := (), queue := [.key 2 0], prev := [.key 2 0], prevH := some 1 }
+
 /-! ### the concrete world: filter heap + object table + scripted handlers -/
+
+/-- what handlers do to the macro state (named commands `start-kbd-macro`, `end-kbd-macro`,
+    `call-last-kbd-macro`; vi `q<reg>` / `q`) -/
+inductive MacroOp where
+  | start      -- emacs_state.start_macro(): current_recording = []
+  | stop       -- emacs_state.end_macro(): macro = current_recording; current_recording = None
+  | call       -- if macro: key_processor.feed_multiple(macro, first=True)
+  | viStart    -- vi_state.recording_register = c; vi_state.current_recording = ""
+  | viStop     -- if recording_register: recording_register = None; current_recording = ""
+deriving Repr, Inhabited, DecidableEq
 
 /-- what one invocation of a handler does, in this order -/
 structure Eff where
   flips : List Nat := []                  -- toggle these condition variables
   ops : List ROp := []                    -- add / remove bindings, retarget dynamic wrappers
   feeds : List (List KP × Bool) := []     -- key_processor.feed_multiple(keys, first)
+  macros : List MacroOp := []             -- start / end / call the keyboard macro
   exit : Bool := false                    -- makes app.is_done true
+  argKey : Option Char := none            -- event.append_to_arg_count(c)
   outcome : Outcome := .ok
 deriving Repr, Inhabited
 
@@ -282,6 +365,11 @@ structure World where
   root : Nat := 0                         -- the KeyProcessor's `_bindings` object
   scripts : List (List Eff) := []         -- handler id ↦ effects of its 1st, 2nd, … invocation
   hcount : List Nat := []                 -- handler id ↦ number of invocations so far
+  erec : Option (List KP) := none         -- app.emacs_state.current_recording
+  lastMacro : Option (List KP) := some [] -- app.emacs_state.macro
+  vreg : Bool := false                    -- app.vi_state.recording_register is set
+  vrec : List KP := []                    -- app.vi_state.current_recording (the keys whose `data`
+                                          -- were concatenated)
 deriving Repr, Inhabited
 
 def flipEnv (env : List Bool) (v : Nat) : List Bool :=
@@ -290,20 +378,50 @@ def flipEnv (env : List Bool) (v : Nat) : List Bool :=
 
 def applyOps (w : W) (ops : List ROp) : W := ops.foldl (fun w op => (applyROp w op).1) w
 
+def applyMacro (xq : World × List KP) : MacroOp → World × List KP
+  | .start => ({ xq.1 with erec := some [] }, xq.2)
+  | .stop => ({ xq.1 with lastMacro := xq.1.erec, erec := none }, xq.2)
+  | .call =>
+    match xq.1.lastMacro with
+    | some (k :: ks) => (xq.1, feedMultiple xq.2 (k :: ks) true)
+    | _ => xq
+  | .viStart => ({ xq.1 with vreg := true, vrec := [] }, xq.2)
+  | .viStop => if xq.1.vreg then ({ xq.1 with vreg := false, vrec := [] }, xq.2) else xq
+
 def applyEff (x : World) (q : List KP) (e : Eff) : World × List KP :=
   let env := e.flips.foldl flipEnv x.t.env
   let t := applyOps { x.t with env := env } e.ops
   let q := e.feeds.foldl (fun q f => feedMultiple q f.1 f.2) q
-  ({ x with t := t, done := x.done || e.exit }, q)
+  let r := e.macros.foldl applyMacro ({ x with t := t }, q)
+  ({ r.1 with done := x.done || e.exit }, r.2)
 
-def worldCall (x : World) (q : List KP) (b : Binding) (_seq _prev : List KP) :
+/-- the script entry for the next invocation of handler `hid` -/
+def scriptOf (x : World) (hid : Nat) : Option Eff :=
+  (x.scripts.getD hid [])[x.hcount.getD hid 0]?
+
+/-- `event.append_to_arg_count(c)` of a scripted handler: the new `key_processor.arg`
+    (`none`: not called, or its `assert` failed) -/
+def worldArgOut (x : World) (b : Binding) (_seq : List KP) (ev : EvX) : Option (List Char) :=
+  match scriptOf x b.hid with
+  | some e => match e.argKey with
+    | some c => appendArg ev.arg c
+    | none => none
+  | none => none
+
+def worldCall (x : World) (q : List KP) (b : Binding) (_seq _prev : List KP) (ev : EvX) :
     World × List KP × Outcome :=
   let n := x.hcount.getD b.hid 0
   let hc := if b.hid < x.hcount.length then x.hcount.set b.hid (n + 1)
             else x.hcount ++ List.replicate (b.hid - x.hcount.length) 0 ++ [1]
   let x := { x with hcount := hc }
   match (x.scripts.getD b.hid [])[n]? with
-  | some e => let r := applyEff x q e; (r.1, r.2, e.outcome)
+  | some e =>
+    let r := applyEff x q e
+    -- a failing `assert` in append_to_arg_count leaves the handler as an AssertionError
+    let bad := match e.argKey with
+      | some c => (appendArg ev.arg c).isNone
+      | none => false
+    (r.1, r.2, if bad then .raise else e.outcome)
   | none => (x, q, .ok)
 
 def worldIface : Iface World where
@@ -312,5 +430,10 @@ def worldIface : Iface World where
   evalF := fun x f => f.eval (envFn x.t.env)
   call := worldCall
   done := fun x => x.done
+  argOut := worldArgOut
+  recE := fun x => x.erec.isSome
+  recV := fun x => x.vreg
+  pushE := fun x seq => { x with erec := x.erec.map (· ++ seq) }
+  pushV := fun x seq => { x with vrec := x.vrec ++ seq }
 
 end Ptk.C04
